@@ -10,11 +10,13 @@
      tab     : tracked table of HeavyHitters / StreamThreshold (key -> value, NoV = not tracked)
      lastRet : history oracle, estimate returned by the key's most recent add/remove (NoV = none yet)
      smallest: HeavyHitters' cached smallest tracked value (stale on purpose, as in the code)
+     mode    : the query method in force ("min" / "mean" / "meanmin"): starts as the class's own (constant Mode) and is changed by the
+               query_type setter, an operation of its own (<<"setq",w,m>>, m \in Modes); clear(), join and reload keep it
    Operations: <<"add",w,k,a>> <<"rem",w,k,a>> (legitimate only: a <= tru[k]) <<"clear",w>> <<"join",w>> (w := w + other) *)
 EXTENDS Integers, Sequences, FiniteSets, TLC, Json
 
 CONSTANTS Keys, W, D, Tables, Kind, Mode, CellMax, CellMin, TotMax, TotMin, Amts, NH, Thr,
-          MaxTrue, MaxDepth, Whos, AllowIllegit, Channels, MaxReloads, Queries
+          MaxTrue, MaxDepth, Whos, AllowIllegit, Channels, MaxReloads, Queries, Modes
 
 VARIABLES pos, sk, hist, last
 vars == <<pos, sk, hist, last>>
@@ -26,7 +28,7 @@ Clamp(v) == Mxx(CellMin, Mn(v, CellMax))
 Bin(k, i) == (pos[k][i] % W) + (i - 1) * W + 1
 
 Empty == [cells |-> [p \in 1..(W * D) |-> 0], total |-> 0, tru |-> [k \in Keys |-> 0], sat |-> FALSE,
-          tab |-> <<>>, lastRet |-> [k \in Keys |-> NoV], smallest |-> 0, rl |-> 0]
+          tab |-> <<>>, lastRet |-> [k \in Keys |-> NoV], smallest |-> 0, rl |-> 0, mode |-> Mode]
 
 -----------------------------------------------------------------------------
 (* queries over the D values of a key *)
@@ -38,17 +40,17 @@ RECURSIVE SrtSeq(_, _)
 SrtSeq(s, i) == IF i > Len(s) THEN <<>> ELSE InsSorted(SrtSeq(s, i + 1), s[i])
 FloorDiv(a, b) == a \div b          \* TLA+ \div floors, like Python's //
 
-Query(vals, total) ==
+Query(vals, total, mode) ==
   LET s == SrtSeq(vals, 1) IN
-  CASE Mode = "min" -> s[1]
-    [] Mode = "mean" -> FloorDiv(SumSeq(s, 1), D)
-    [] Mode = "meanmin" ->
+  CASE mode = "min" -> s[1]
+    [] mode = "mean" -> FloorDiv(SumSeq(s, 1), D)
+    [] mode = "meanmin" ->
          IF s[1] = 0 /\ s[D] = 0 THEN 0
          ELSE LET mm == SrtSeq([i \in 1..D |-> s[i] - FloorDiv(total - s[i], W - 1)], 1) IN
               IF D % 2 = 0 THEN FloorDiv(mm[D \div 2 + 1] + mm[D \div 2], 2) ELSE mm[D \div 2 + 1]
 
 Vals(s, k) == [i \in 1..D |-> s.cells[Bin(k, i)]]
-Est(s, k) == Query(Vals(s, k), s.total)
+Est(s, k) == Query(Vals(s, k), s.total, s.mode)
 
 -----------------------------------------------------------------------------
 (* tracked tables: a Python dict, i.e. a sequence of <<key, value>> in insertion order *)
@@ -79,7 +81,7 @@ AddS(s, k, a) ==
       nv == [i \in 1..D |-> Mn(s.cells[bins[i]] + a, CellMax)]
       cells2 == [p \in 1..(W * D) |-> IF \E i \in 1..D : bins[i] = p THEN nv[CHOOSE i \in 1..D : bins[i] = p] ELSE s.cells[p]]
       tot == Mn(s.total + a, TotMax)
-      res == Query(nv, tot)
+      res == Query(nv, tot, s.mode)
       s1 == [s EXCEPT !.cells = cells2, !.total = tot, !.tru[k] = @ + a, !.lastRet[k] = res,
                       !.sat = @ \/ s.total + a > TotMax \/ \E i \in 1..D : s.cells[bins[i]] + a > CellMax]
   IN [ret |-> res,
@@ -92,7 +94,7 @@ RemS(s, k, a) ==
       nv == [i \in 1..D |-> Mxx(s.cells[bins[i]] - a, CellMin)]
       cells2 == [p \in 1..(W * D) |-> IF \E i \in 1..D : bins[i] = p THEN nv[CHOOSE i \in 1..D : bins[i] = p] ELSE s.cells[p]]
       tot == Mxx(s.total - a, TotMin)
-      res == Query(nv, tot)
+      res == Query(nv, tot, s.mode)
       s1 == [s EXCEPT !.cells = cells2, !.total = tot, !.tru[k] = @ - a, !.lastRet[k] = res,
                       !.sat = @ \/ s.total - a < TotMin \/ \E i \in 1..D : s.cells[bins[i]] - a < CellMin]
   IN [ret |-> res, outs |-> IF Kind = "st" THEN {STUpdate(s1, k, res)} ELSE {s1}]
@@ -113,6 +115,7 @@ Ops == {<<"add", w, k, a>> : w \in Whos, k \in Keys, a \in Amts}
        \cup (IF Kind = "cms" THEN {<<"join", w, "", 0>> : w \in Whos} ELSE {})
        \cup (IF Kind = "cms" THEN {<<"rt", w, c, 0>> : w \in Whos, c \in Channels} ELSE {})   \* export + load: identity
        \cup (IF Queries THEN {<<"chk", w, k, 0>> : w \in Whos, k \in Keys} ELSE {})
+       \cup {<<"setq", w, m, 0>> : w \in Whos, m \in Modes}          \* the query_type setter
           \* a query is an ACTION that changes nothing (C19); it is in the history (used with ViewH) because the code may keep state
           \* across a query - a memo of the last answer, a cached total - that only shows in what happens afterwards
 
@@ -126,7 +129,8 @@ Do(o) == LET w == o[2]  s == sk[w] IN
               [] o[1] = "rem" -> /\ (AllowIllegit \/ o[4] <= s.tru[o[3]])
                                  /\ LET r == RemS(s, o[3], o[4]) IN
                                     \E n \in r.outs : sk' = [sk EXCEPT ![w] = n] /\ last' = [o |-> o, ret |-> r.ret]
-              [] o[1] = "clear" -> sk' = [sk EXCEPT ![w] = [Empty EXCEPT !.rl = s.rl]] /\ last' = [o |-> o, ret |-> NoV]
+              [] o[1] = "clear" -> sk' = [sk EXCEPT ![w] = [Empty EXCEPT !.rl = s.rl, !.mode = s.mode]] /\ last' = [o |-> o, ret |-> NoV]
+              [] o[1] = "setq" -> sk' = [sk EXCEPT ![w].mode = o[3]] /\ last' = [o |-> o, ret |-> NoV]
               [] o[1] = "rt" -> /\ s.rl < MaxReloads
                                 /\ sk' = [sk EXCEPT ![w].rl = @ + 1] /\ last' = [o |-> o, ret |-> NoV]
               [] o[1] = "join" -> sk' = [sk EXCEPT ![w] = JoinS(s, sk[Other(w)])] /\ last' = [o |-> o, ret |-> NoV]
@@ -149,8 +153,8 @@ TypeOK == \A w \in {"A", "B"} : /\ \A p \in 1..(W * D) : sk[w].cells[p] \in Cell
                                 /\ sk[w].total \in TotMin..TotMax
 Isolated(k) == \A j \in Keys \ {k} : \A i \in 1..D : Bin(j, i) # Bin(k, i)
 Legit(s) == \A k \in Keys : s.tru[k] >= 0
-Bounds ==                                     \* C02 (min mode, unsaturated, legitimate history)
-  Mode = "min" => \A w \in {"A", "B"} : LET s == sk[w] IN (~s.sat /\ Legit(s)) =>
+Bounds ==                                     \* C02 (min mode in force - whatever it was before -, unsaturated, legitimate history)
+  \A w \in {"A", "B"} : LET s == sk[w] IN (s.mode = "min" /\ ~s.sat /\ Legit(s)) =>
      \A k \in Keys : /\ s.tru[k] <= Est(s, k) /\ Est(s, k) <= s.total
                      /\ (Isolated(k) => Est(s, k) = s.tru[k])
 TotalMeaning ==                               \* C14
@@ -167,19 +171,21 @@ HHConsistent ==                               \* C17
   Kind = "hh" => LET s == sk["A"]  T == Tracked(s.tab)  seen == {k \in Keys : s.lastRet[k] # NoV} IN
      /\ Cardinality(T) = Mn(NH, Cardinality(seen)) /\ Len(s.tab) = Cardinality(T)
      /\ \A k \in T : TabGet(s.tab, k) = s.lastRet[k]
-     /\ \A k \in seen \ T : \A j \in T : s.lastRet[k] <= TabGet(s.tab, j)
+     /\ (Modes = {} => \A k \in seen \ T : \A j \in T : s.lastRet[k] <= TabGet(s.tab, j))
+          \* the order clause presupposes estimates that never drop for a tracked key: true for the min query under additions (the class's own
+          \* mode, which C17 is about), not once the query method is switched (mean-min estimates fall as the total grows)
 STConsistent ==                               \* C17
   Kind = "st" => LET s == sk["A"] IN \A k \in Keys :
      IF s.lastRet[k] # NoV /\ s.lastRet[k] >= Thr THEN TabGet(s.tab, k) = s.lastRet[k] ELSE TabGet(s.tab, k) = NoV
 STNeverMissing ==                             \* C17: a key whose true count reaches the threshold is tracked
-  (Kind = "st" /\ Mode = "min") => LET s == sk["A"] IN (~s.sat /\ Legit(s)) =>
+  Kind = "st" => LET s == sk["A"] IN (~s.sat /\ Legit(s)) =>
      \A k \in Keys : (s.lastRet[k] # NoV /\ s.tru[k] >= Thr /\ s.lastRet[k] >= s.tru[k]) => TabGet(s.tab, k) # NoV
 SaturatedStays == [][ \A w \in {"A", "B"} : \A p \in 1..(W * D) :                                            \* C16
                         (last'.o[1] = "join" /\ last'.o[2] = w /\ (sk[w].cells[p] = CellMax \/ sk[w].cells[p] = CellMin))
                            => sk'[w].cells[p] = sk[w].cells[p] ]_vars
 
 -----------------------------------------------------------------------------
-SView(s) == [cells |-> s.cells, total |-> s.total, tru |-> s.tru, sat |-> s.sat, tab |-> s.tab, lastRet |-> s.lastRet,
+SView(s) == [mode |-> s.mode, cells |-> s.cells, total |-> s.total, tru |-> s.tru, sat |-> s.sat, tab |-> s.tab, lastRet |-> s.lastRet,
              est |-> [k \in Keys |-> Est(s, k)], iso |-> [k \in Keys |-> Isolated(k)]]
 Emit == PrintT(ToJson([pos |-> pos, h |-> hist, a |-> last'.o, ret |-> last'.ret,
                        e |-> [A |-> SView(sk'["A"]), B |-> SView(sk'["B"])]]))
